@@ -3,7 +3,7 @@
    Part 1 (finite domain, bound in the statement): every configuration of Gen/G_sites.v, which is REGENERATED on every run by
    evaluating tenpy/networks/site.py (118 configurations: 7 site classes x parameters x conserve options), passes the
    decidable checks of Model/SiteTab.v.  Part 2 (unbounded): the sign machinery of terms.py (Model/JW.v). *)
-From TenpyV Require Import Base.Prelude Model.SiteTab Gen.G_sites Proofs.SiteTabP Model.JW Proofs.JWP.
+From TenpyV Require Import Base.Prelude Model.SiteTab Gen.G_sites Proofs.SiteTabP Model.JW Proofs.JWP Model.JW2 Proofs.JWP2.
 From Coq Require Import String.
 Open Scope Z_scope.
 
@@ -70,6 +70,42 @@ Theorem T12_multi_coupling_JW : forall term, total_parity term = false ->
      xor_over ks (fun k => nf_sign (phys_word term k)) = order_sign term).
 Proof. exact term_machinery_correct. Qed.
 
+(* the loop of multi_coupling_term_handle_JW versus the closed form used in T12_multi_coupling_JW, for EVERY term (any number of
+   operators, any order, repeated sites): the combined term has strictly ascending sites; the handler raises iff the fermion
+   parity is odd; otherwise it keeps operators and sites, returns strs = the flags without the last, and on EVERY site k
+   the Jordan-Wigner content read off its output (out_flag: flag on the operator sites, string between them, nothing
+   outside) is jw_right, i.e. the word it puts on site k (out_word) IS impl_word of T12_multi_coupling_JW; the per-case
+   check `strings_consistent` of the correspondence stream always succeeds on the model *)
+Theorem T12_handle_JW_closed_form : forall term,
+  let g := group (order_sort term) in
+  ascending g /\
+  (total_parity term = true -> multi_coupling_term_handle_JW g = None) /\
+  (total_parity term = false ->
+     exists res strs, multi_coupling_term_handle_JW g = Some (res, strs) /\
+       map (fun e => (fst (fst e), gsite e)) res = map (fun e => (fst (fst e), gsite e)) g /\
+       strs = removelast (map gflag res) /\
+       (forall k, out_flag res strs k = jw_right g k) /\
+       (forall k, out_word term res strs k = impl_word term k) /\
+       strings_consistent g res strs = true).
+Proof. exact handler_closed_form. Qed.
+
+(* the two-site handler coupling_term_handle_JW (i < j as it requires): raises iff exactly one operator needs a string; else
+   its output coincides with the multi-site handler on the same term, the words it puts on the sites (op_i [JW] on i, the
+   string on i<k<j, op_j on j) are impl_word, hence -- up to JW^2 = 1, JW f = -f JW -- the Jordan-Wigner product of the two
+   operators, with overall sign +1 *)
+Theorem T12_coupling_JW : forall a fi b fj i j, i < j ->
+  let term := [mkItem a i fi; mkItem b j fj] in
+  (coupling_term_handle_JW fi fj = None <-> total_parity term = true) /\
+  (forall app str, coupling_term_handle_JW fi fj = Some (app, str) ->
+     order_combine_term term = ([([a], i, fi); ([b], j, fj)], false) /\
+     multi_coupling_term_handle_JW (group (order_sort term)) = Some ([([a], i, app); ([b], j, false)], [str]) /\
+     (forall k, coupling_words a fi b fj i j k = Some (impl_word term k)) /\
+     (forall k, nf_sign (impl_word term k) = false /\
+                nf_jw (impl_word term k) = nf_jw (phys_word term k) /\
+                nf_ops (impl_word term k) = nf_ops (phys_word term k)) /\
+     (forall ks, NoDup ks -> In i ks -> In j ks -> xor_over ks (fun k => nf_sign (phys_word term k)) = false)).
+Proof. exact coupling_JW. Qed.
+
 (* canonical anticommutation relations of the many-body operators on chains of any length: for i <> j the two orders give the
    same tensor factors with opposite total sign; for i = j everything reduces to the local product on site i *)
 Theorem T12_CAR_offsite : forall a b i j, i <> j ->
@@ -100,6 +136,20 @@ Proof. vm_compute. reflexivity. Qed.
 Example T12_example_odd_sign : order_sign [mkItem 1 2 true; mkItem 2 0 true] = true.
 Proof. vm_compute. reflexivity. Qed.
 
+Example T12_example_handler :
+  let term := [mkItem 1 5 true; mkItem 2 0 true; mkItem 3 2 false; mkItem 4 7 true; mkItem 5 9 true] in
+  multi_coupling_term_handle_JW (group (order_sort term)) =
+    Some ([([2], 0, true); ([3], 2, true); ([1], 5, false); ([4], 7, true); ([5], 9, false)], [true; true; false; true]) /\
+  map (out_flag [([2], 0, true); ([3], 2, true); ([1], 5, false); ([4], 7, true); ([5], 9, false)] [true; true; false; true])
+      [-1; 0; 1; 2; 3; 4; 5; 6; 7; 8; 9; 10] =
+  [false; true; true; true; true; true; false; false; true; true; false; false].
+Proof. vm_compute. split; reflexivity. Qed.
+
+Example T12_example_coupling :
+  coupling_term_handle_JW true true = Some (true, true) /\
+  map (coupling_words 1 true 2 true 1 3) [0; 1; 2; 3; 4] = [Some []; Some [Op 1 true; JWl]; Some [JWl]; Some [Op 2 true]; Some []].
+Proof. vm_compute. split; reflexivity. Qed.
+
 Print Assumptions T12_coverage.
 Print Assumptions T12_tables_wellformed.
 Print Assumptions T12_same_operator_up_to_perm.
@@ -111,3 +161,5 @@ Print Assumptions T12_order_combine_sign.
 Print Assumptions T12_multi_coupling_JW.
 Print Assumptions T12_CAR_offsite.
 Print Assumptions T12_CAR_onsite.
+Print Assumptions T12_handle_JW_closed_form.
+Print Assumptions T12_coupling_JW.
